@@ -418,9 +418,17 @@ static void run_subprocess(char **argv) {
     _exit(1);
   }
 
-  // Wait for the child process to finish.
+  // Wait for the child process to finish. The driver may own other
+  // children (a process keeps its children across exec), so wait for
+  // the command started above and look at its status only.
   int status;
-  while (wait(&status) > 0);
+  int ret;
+  do {
+    ret = waitpid(pid, &status, 0);
+  } while (ret == -1 && errno == EINTR);
+
+  if (ret != pid)
+    error("waitpid failed: %s", strerror(errno));
   if (status != 0)
     exit(1);
 }
